@@ -112,6 +112,7 @@ fn cut_sem(cid: i64, old: &Val, new: &Val) -> bool {
 // ---------------------------------------------------------------- DSL
 #[derive(Clone, Debug)]
 enum Effect {
+    DropVar(usize),
     Set(usize, i64),
     SetArg(usize),
     Update(usize, i64),
@@ -212,6 +213,7 @@ impl P {
         let n = |i: usize| p[i].parse::<usize>().unwrap();
         let z = |i: usize| p[i].parse::<i64>().unwrap();
         match p[0] {
+            "dropvar" => Effect::DropVar(n(1)),
             "set" => Effect::Set(n(1), z(2)),
             "setarg" => Effect::SetArg(n(1)),
             "update" => Effect::Update(n(1), z(2)),
@@ -426,34 +428,39 @@ fn run_effects(arg: &Val, effs: &[Effect]) {
         let c = ctx();
         // take clones of handles so no RefCell borrow of the context is held while user code runs
         match e {
+            Effect::DropVar(x) => {
+                // the closure owns the program's handle from now on and lets it go
+                let v = c.vars.borrow_mut()[*x].take();
+                drop(v);
+            }
             Effect::Set(x, v) => {
-                let var = c.vars.borrow()[*x].clone().expect("harness: var handle dropped");
+                let Some(var) = c.vars.borrow()[*x].clone() else { continue };
                 var.set(Val::Int(*v))
             }
             Effect::SetArg(x) => {
-                let var = c.vars.borrow()[*x].clone().expect("harness: var handle dropped");
+                let Some(var) = c.vars.borrow()[*x].clone() else { continue };
                 var.set(arg.clone())
             }
             Effect::Update(x, d) => {
-                let var = c.vars.borrow()[*x].clone().expect("harness: var handle dropped");
+                let Some(var) = c.vars.borrow()[*x].clone() else { continue };
                 var.update(|v| Val::Int(v.as_int() + d))
             }
             Effect::Modify(x, d) => {
-                let var = c.vars.borrow()[*x].clone().expect("harness: var handle dropped");
+                let Some(var) = c.vars.borrow()[*x].clone() else { continue };
                 var.modify(|v| *v = Val::Int(v.as_int() + d))
             }
             Effect::Replace(x, v) => {
-                let var = c.vars.borrow()[*x].clone().expect("harness: var handle dropped");
+                let Some(var) = c.vars.borrow()[*x].clone() else { continue };
                 let old = var.replace(Val::Int(*v));
                 ev(format!("effreplace {x} {old:?}"));
             }
             Effect::ReplaceWith(x, d) => {
-                let var = c.vars.borrow()[*x].clone().expect("harness: var handle dropped");
+                let Some(var) = c.vars.borrow()[*x].clone() else { continue };
                 let old = var.replace_with(|v| Val::Int(v.as_int() + d));
                 ev(format!("effreplace {x} {old:?}"));
             }
             Effect::Get(x) => {
-                let var = c.vars.borrow()[*x].clone().expect("harness: var handle dropped");
+                let Some(var) = c.vars.borrow()[*x].clone() else { continue };
                 ev(format!("effget {x} {:?}", var.get()));
             }
             Effect::Read(o) => {
